@@ -55,7 +55,7 @@ NA = {
 def main():
     props = [json.loads(l)["id"] for l in open(os.path.join(VERIF, "properties.jsonl"))]
     m = dict(version=1,
-             setup_cmd="cd /verif/harness && cp /repo/go.sum go.sum && GOFLAGS=-mod=mod GOPROXY=off GOSUMDB=off GOTOOLCHAIN=local go build -tags verif -o /verif/build/kbverif ./cmd/kbverif && tla-sany /verif/spec/KubeBrain.tla >/dev/null",
+             setup_cmd="bash /verif/bin/setup.sh",
              hooks=dict(guard="verif (Go build tag)", enable="go build -tags verif (the harness module replaces github.com/kubewharf/kubebrain with /repo)",
                         baseline_off_cmd="/verif/bin/baseline_off.sh", source_commits=hooks_commits(), add_only=True),
              engines=[dict(name="tlc", path="/usr/local/bin/tlc", serves_properties=sorted(CHECKS), kind_free_text="TLC 1.8 explicit-state model checker: exhaustive checks of spec/*.tla, behaviour generation, trace validation"),
